@@ -3,7 +3,6 @@ package rules
 import (
 	"fmt"
 	"go/token"
-	"sort"
 	"strings"
 
 	"golang.org/x/tools/go/ssa"
@@ -15,9 +14,9 @@ func init() {
 	register(&Property{
 		ID:    "C09",
 		Level: "other",
-		Explanation: "Decided (structural necessary conditions of 'layout only regroups text'): (R9.1) in every regrouping and text-assembly function named by the property, each accumulating loop transfers its element (fragment, line, paragraph, block, column) on every iteration path, or skips it only under an emptiness test; every other skip is a lossy filter and must be a listed known finding or an explicitly justified de-duplication; (R9.2) no iteration path of a text-assembly loop writes the element's text twice; (R9.3) merging loops thread their accumulator (the merged value so far), so nothing merged earlier is forgotten; (R9.4) column intervals built from gaps tile the page (each inner edge is the same point for the column on its left and on its right). " +
+		Explanation: "Decided (structural necessary conditions of 'layout only regroups text'): (R9.1) in every regrouping and text-assembly function named by the property, each accumulating loop transfers its element (fragment, line, paragraph, block, column) on every iteration path, or skips it only under an emptiness test; every other skip is a lossy filter and must be a listed known finding or an explicitly justified de-duplication; (R9.2) no iteration path of a text-assembly loop writes the element's text twice; (R9.3) merging loops thread their accumulator (the merged value so far), so nothing merged earlier is forgotten. " +
 			"Not decided: multiset equality of characters, duplication through overlapping assignment at run time, ordering.",
-		Rules: []func(*eng.Ctx){ruleLossyFilterC09, ruleMergeThreading, ruleColumnTiling},
+		Rules: []func(*eng.Ctx){ruleLossyFilterC09, ruleMergeThreading},
 	})
 }
 
@@ -117,49 +116,3 @@ func ruleMergeThreading(c *eng.Ctx) {
 	}
 }
 
-// R9.4: inner column edges tile.
-func ruleColumnTiling(c *eng.Ctx) {
-	const R = "R9.4-COLUMN-TILING"
-	c.Rule(R, "createColumnsFromGaps: every inner left edge and every inner right edge of the column intervals is computed the same way from a gap (so consecutive intervals share their edge and leave no strip of the page unassigned)", 1, 0)
-	fn := c.P.Func("layout.(*ColumnDetector).createColumnsFromGaps")
-	if fn == nil {
-		c.Undec(R, "layout.(*ColumnDetector).createColumnsFromGaps", token.NoPos, "anchor not found")
-		return
-	}
-	kinds := map[string]map[string]bool{"left": {}, "right": {}}
-	eng.Instrs(fn, false, func(in ssa.Instruction) {
-		st, ok := in.(*ssa.Store)
-		if !ok {
-			return
-		}
-		fr, ok := eng.AsField(st.Addr)
-		if !ok || (fr.Field != "left" && fr.Field != "right") {
-			return
-		}
-		kind := "other"
-		switch v := st.Val.(type) {
-		case *ssa.Call:
-			kind = "call:" + eng.CalleeName(v)
-		case *ssa.UnOp:
-			if f, ok := eng.LoadOfField(v); ok {
-				kind = "field:" + f.Field
-			}
-		case *ssa.Phi:
-			kind = "extreme" // minX / maxX running extreme
-		}
-		kinds[fr.Field][kind] = true
-	})
-	inner := func(m map[string]bool) []string {
-		var out []string
-		for k := range m {
-			if k != "extreme" {
-				out = append(out, k)
-			}
-		}
-		sort.Strings(out)
-		return out
-	}
-	l, r := inner(kinds["left"]), inner(kinds["right"])
-	ok := len(l) == 1 && len(r) == 1 && l[0] == r[0]
-	c.Check(ok, R, "layout.(*ColumnDetector).createColumnsFromGaps#edges", fn.Pos(), fmt.Sprintf("inner edges: %v", l), fmt.Sprintf("inner left edges are computed as %v but inner right edges as %v: the column intervals do not tile, fragments centred in the uncovered strip belong to no column", l, r))
-}
